@@ -142,6 +142,7 @@ pub struct NewNode {
     pub children: Vec<NewNode>,
     pub self_ref_prop: bool,
     pub other_thread: bool,
+    pub ctor: u8,
 }
 
 #[derive(Clone, Debug)]
@@ -206,12 +207,18 @@ impl World {
     fn builder_of(&self, n: &NewNode, ids: &mut Vec<(InstanceBuilderInfo, usize)>, m: &mut Model, dom: usize, parent: Option<usize>) -> (InstanceBuilder, usize) {
         // `other_thread`: the builder (and with it the new referent) is created on a freshly started thread, as a
         // program that prepares subtrees on worker threads would; where it was made must not matter once it is inserted
-        let mut b = if n.other_thread {
-            std::thread::scope(|s| s.spawn(|| InstanceBuilder::new(n.class.as_str())).join().expect("builder thread"))
-        } else {
-            InstanceBuilder::new(n.class.as_str())
-        }
-        .with_name(n.name.clone());
+        // every public constructor of InstanceBuilder is used: new, with_property_capacity, empty + with_class / set_class
+        let make = || match n.ctor {
+            1 => InstanceBuilder::with_property_capacity(n.class.as_str(), 3),
+            2 => InstanceBuilder::empty().with_class(n.class.as_str()),
+            3 => {
+                let mut b = InstanceBuilder::empty();
+                b.set_class(n.class.as_str());
+                b
+            }
+            _ => InstanceBuilder::new(n.class.as_str()),
+        };
+        let mut b = if n.other_thread { std::thread::scope(|s| s.spawn(make).join().expect("builder thread")) } else { make() }.with_name(n.name.clone());
         let id = m.next;
         m.next += 1;
         let mut props = BTreeMap::new();
@@ -303,7 +310,8 @@ fn gen_newnode(ch: &mut dyn Chooser, w: &World, cfg: &Cfg, depth: usize, budget:
         }
     }
     let other_thread = cfg.rich_props && !cfg.exhaustive && ch.choose(6) == 0;
-    NewNode { class, name, shadowed_uid, props, children, self_ref_prop: self_ref, other_thread }
+    let ctor = if cfg.rich_props && !cfg.exhaustive { [0u8, 0, 0, 1, 2, 3][ch.choose(6)] } else { 0 };
+    NewNode { class, name, shadowed_uid, props, children, self_ref_prop: self_ref, other_thread, ctor }
 }
 
 fn gen_op(ch: &mut dyn Chooser, w: &World, cfg: &Cfg) -> Option<Op> {
@@ -443,7 +451,7 @@ fn all_ops(w: &World, cfg: &Cfg) -> Vec<Op> {
                     ops.push(Op::Insert {
                         dom: w.m.nodes[p].dom,
                         parent: *p,
-                        sub: NewNode { class: "Folder".into(), name: "n".into(), shadowed_uid: None, props, children: vec![], self_ref_prop: false, other_thread: false },
+                        sub: NewNode { class: "Folder".into(), name: "n".into(), shadowed_uid: None, props, children: vec![], self_ref_prop: false, other_thread: false, ctor: 0 },
                     });
                 }
             }
